@@ -1,8 +1,22 @@
 import Driver.Codec
+import LopdfModel.Spec.Strict
 namespace Lopdf.Driver.C03
 open Lopdf Lopdf.Codec
 
-/-- protocol operations of property C03: `none` = not an operation of this property. -/
-def handle (op : String) (args : List String) : Option String := none
+/-- `strict <hex>` -> `ok <revisions> <objects> <version hex> <xref streams>` | `err`
+(the Lean strict structural reader `Spec/Strict.lean` on a whole file) -/
+def handle (op : String) (args : List String) : Option String :=
+  match op with
+  | "strict" =>
+    some <| match args with
+      | [h] =>
+        (match bytesOfHex h with
+         | none => "bad-op"
+         | some b =>
+           match Strict.strictLoad b with
+           | .ok sd => s!"ok {sd.revisions} {sd.objects.length} {hexTok sd.version} {sd.xrefStreamIds.length}"
+           | .error _ => "err")
+      | _ => "bad-op"
+  | _ => none
 
 end Lopdf.Driver.C03
